@@ -115,6 +115,21 @@ pub fn check_error_spans(e: &AsmErr, text: &str, prog: &AProg, rr: &RefResult, o
     }
 }
 
+/// C26 on a source that carries characters in front of its first line which the abstract program does not describe (byte order mark, other
+/// format / space / control characters): if the parser takes the text and the assembler returns an error, its spans are judged against the
+/// text as given. Returns (parsed, errored).
+pub fn check_affixed_spans(prog: &AProg, style: &Style, prefix: &str, out: &mut Vec<Fail>) -> (bool, bool) {
+    let rendered = render(prog, style);
+    let text = format!("{prefix}{}", rendered.text);
+    let ast = match catch(|| parse_ast(&text)) { Err(p) => { fail(out, "C04", format!("panic:{}", panic_site(&p)), format!("parse_ast panicked: {p}")); return (false, false); } Ok(Err(_)) => return (false, false), Ok(Ok(a)) => a };
+    let rr = refasm::assemble(prog);
+    match catch(|| assemble_debug(ast, &text)) {
+        Err(p) => { fail(out, "C02", format!("panic:{}", panic_site(&p)), format!("assembling panicked: {p}")); (true, false) }
+        Ok(Ok(_)) => (true, false),
+        Ok(Err(e)) => { check_error_spans(&e, &text, prog, &rr, out); (true, true) }
+    }
+}
+
 /// Full pipeline check. Returns per-case info for coverage accounting.
 pub fn check_program(prog: &AProg, style: &Style, debug: bool, out: &mut Vec<Fail>) -> Info {
     let mut info = Info::default();
